@@ -171,6 +171,24 @@ def composition_clause(model, rep, funcs):
                    stmt=f"{a} call")
 
 
+def shim_clause(model, rep, funcs):
+    """The arity shims decide how many leading arguments (scale / image, scale) the user function takes by counting *all* its positional
+    parameters, with or without defaults: a `scale=1.0` parameter still receives the pipeline's scale."""
+    cnt = "$n = sum(1 for $p in inspect.signature(func).parameters.values() if $p.kind in ($p.POSITIONAL_ONLY, $p.POSITIONAL_OR_KEYWORD))"
+    for name, pats in (("_assert_1_arg", [cnt, "if $n == 0:\n    $out = lambda $x: func()\n    ...\nelse:\n    return func"]),
+                       ("_assert_2_args", [cnt, "if $n == 0:\n    $out = lambda $x0, $x1: func()\nelif $n == 1:\n    $out = lambda $x0, $x1: func($x0)\nelse:\n    return func",
+                                           "return $out"])):
+        try:
+            f = model.func("acryo/pipe/_curry.py::" + name)
+        except Exception:
+            rep.error(f"anchor vanished: acryo/pipe/_curry.py::{name}")
+            continue
+        rep.instance("CURRY", f.loc())
+        ok, why = Matcher(f).all_of(pats)
+        rep.ob("CURRY", f.anchor, "the arity shim counts every positional parameter of the user function (defaults included) and forwards scale / (image, scale) to "
+               "functions that declare them", ok, why, node=f.node, fn=f, clause="3 currying", stmt=f"def {name}")
+
+
 def curry_clause(model, rep, funcs):
     for a, body, shim in (("acryo/pipe/_curry.py::provider_function", "_fn(scale, *args, **kwargs)", "_assert_1_arg"),
                           ("acryo/pipe/_curry.py::converter_function", "_fn(img, scale, *args, **kwargs)", "_assert_2_args")):
@@ -386,6 +404,7 @@ def check(model, rep, tier):
     operator_clause(model, rep, funcs)
     composition_clause(model, rep, funcs)
     curry_clause(model, rep, funcs)
+    shim_clause(model, rep, funcs)
     units_clause(model, rep, funcs)
     gaussian_clause(model, rep, funcs)
     mask_clause(model, rep, funcs)
